@@ -128,7 +128,7 @@ def oracle_trigger(run):
 
 
 def register(PROPS, COMPONENTS):
-    COMPONENTS["trigger"] = dict(client="trigger", driver="trigger", directed_runs=6, quick_runs=1600, thorough_runs=40000,
+    COMPONENTS["trigger"] = dict(client="trigger", driver="trigger", directed_runs=6, quick_runs=6000, thorough_runs=60000,
                                  oracle=oracle_trigger)
     PROPS["C11"] = dict(
         lean_files=["ConcVerif/Props/C11.lean"], components=["trigger"], stage="B",
